@@ -98,8 +98,8 @@ fn family(
 }
 
 pub fn run(tier: Tier, seed: u64) -> MonOut {
-    let nmag = tier.n(200, 20_000);
-    let ntrip = tier.n(50, 5_000);
+    let nmag = tier.n(5_000, 200_000);
+    let ntrip = tier.n(1_000, 40_000);
     // one case per family + constructor groups so that they run in parallel
     let rep = par_cases(seed, 10, |case, rng, rep| match case {
         0 => {
